@@ -40,6 +40,7 @@ THEOREMS = [
     "Typedpy.C13.union_duplicate_collapses",
     "Typedpy.C13.explicit_required_equiv",
     "Typedpy.C13.explicit_required_example",
+    "Typedpy.C13.pipe_literal_equiv",
     "Typedpy.C13.equiv_example",
 ]
 RULE = ("class bodies of 1-3 fields; each field an abstract meaning tree (scalar / constrained field literal / bare or "
